@@ -423,16 +423,18 @@ class Phase(Angle):
         For the 'f' format, precision is kept, and the unit is suppressed.
         For everything else, the Quantity formatter is used.
         """
-        if format_spec.endswith("f"):
+        if format_spec.endswith("f") and self.isscalar:
             # Check that formatting works at all...
-            test = format(self.value, format_spec)
-            pre, dot, post = test.partition(".")
-            if post:
-                precise = self.to_string(precision=len(post))
-                pre, _, post = precise.partition(".")
-                # Just to ensure no bad rounding happened
-                pre = format(float(pre), format_spec).partition(".")[0]
-                return pre + dot + post
+            format(0.0, format_spec)
+            # The number of decimals requested (6 by default, as for floats).
+            _, dot, digits = format_spec[:-1].rpartition(".")
+            precision = int(digits) if dot else 6
+            precise = str(self.to_string(precision=precision))
+            suffix = "j" if precise.endswith("j") else ""
+            pre, dot, post = precise[: len(precise) - len(suffix)].partition(".")
+            # Sign, width, etc., follow from formatting the integer part alone.
+            pre = format(float(pre), format_spec).partition(".")[0]
+            return pre + dot + post + suffix
 
         return self.cycle.__format__(format_spec)
 
